@@ -98,10 +98,14 @@ enum Plug {
     Katakana { min_length: usize, pos: usize },
 }
 
-const OOV_POS: [[&str; 6]; 3] = [
+const OOV_POS: [[&str; 6]; 5] = [
     ["ÂêçË©û", "ÊôÆÈÄöÂêçË©û", "‰∏ÄËà¨", "*", "*", "*"],
     ["ÂêçË©û", "Âõ∫ÊúâÂêçË©û", "Âú∞Âêç", "‰∏ÄËà¨", "*", "*"],
     ["Ë£úÂä©Ë®òÂè∑", "‰∏ÄËà¨", "*", "*", "*", "*"],
+    // user-defined parts of speech: not in any lexicon, introduced by an OOV provider with "userPOS": "allow"
+    // (only the `upos-` variants below configure such a provider)
+    ["ÂêçË©û", "ÊôÆÈÄöÂêçË©û", "Êú™Áü•Ë™û", "*", "*", "*"],
+    ["ÊÑüÂãïË©û", "„Éï„Ç£„É©„Éº", "„Ç´„Çø„Ç´„Éä", "*", "*", "*"],
 ];
 const NUM_POS: [&str; 6] = ["ÂêçË©û", "Êï∞Ë©û", "*", "*", "*", "*"];
 
@@ -488,6 +492,10 @@ fn variants_of(work: &std::path::Path, prefix: &str, dic: &[u8], all_chains: boo
         ("num+kat0", vec![Plug::Numeric { normalize: true }, Plug::Katakana { min_length: 0, pos: 2 }]),
         ("numraw", vec![Plug::Numeric { normalize: false }]),
         ("kat9", vec![Plug::Katakana { min_length: 9, pos: 0 }]),
+        // oovPOS differs from the part of speech of the katakana dictionary words: a run joined only because of minLength
+        // („Ç¢„Ç§ next to „Ç¢„Ç§„Ç¶: no unknown word in it) must still carry the configured oovPOS
+        ("kat3p1", vec![Plug::Katakana { min_length: 3, pos: 1 }]),
+        ("num+kat4p2", vec![Plug::Numeric { normalize: true }, Plug::Katakana { min_length: 4, pos: 2 }]),
     ];
     let mut vs = vec![];
     for (cd_name, cd) in [("res", "resources/char.def"), ("test", "sudachi/tests/resources/char.def")] {
@@ -507,8 +515,97 @@ fn variants_of(work: &std::path::Path, prefix: &str, dic: &[u8], all_chains: boo
                     (load_dict_plain(&dic, &res, json!([])), load_dict_plain(&dic, &res, pr))
                 };
                 let num_pos = pos_id(&base, &NUM_POS);
-                let oov_pos = OOV_POS.iter().map(|p| pos_id(&base, p)).collect();
+                let oov_pos = OOV_POS.iter().map(|p| base.grammar().get_part_of_speech_id(p).unwrap_or(u16::MAX)).collect();
                 vs.push(Variant { name: format!("{}{}/{}{}", prefix, cd_name, name, if input_plugin { "/nfkc" } else { "" }), plugs: plugs.clone(), base, with, num_pos, oov_pos, input_plugin });
+            }
+        }
+    }
+    vs
+}
+
+// ------------------------------------------------------------------------------------------------ user-defined POS
+fn try_load(dic: &[u8], res: &std::path::Path, oov: &Value, path_rewrite: Value) -> Result<JapaneseDictionary, String> {
+    use sudachi::config::ConfigBuilder;
+    use sudachi::dic::storage::{Storage, SudachiDicData};
+    let cfg = json!({"path": res.to_string_lossy(), "characterDefinitionFile": "char.def", "inputTextPlugin": [],
+                     "oovProviderPlugin": oov, "pathRewritePlugin": path_rewrite});
+    match catch(|| {
+        let cfg = ConfigBuilder::from_bytes(cfg.to_string().as_bytes()).map_err(|e| format!("{:?}", e))?.build();
+        JapaneseDictionary::from_cfg_storage(&cfg, SudachiDicData::new(Storage::Owned(dic.to_vec()))).map_err(|e| format!("{:?}", e))
+    }) {
+        Ok(r) => r,
+        Err(p) => Err(format!("Panic({})", p)),
+    }
+}
+
+/// Configurations in which the part of speech JoinKatakanaOovPlugin assigns is a USER-DEFINED one that only an OOV provider
+/// ("userPOS": "allow": Simple / Regex / MeCab through unk.def) introduces.  A configuration that loads without the
+/// path-rewrite plugins and names only parts of speech that exist by the time the OOV providers are set up must load with
+/// them too (a configuration that cannot be loaded is reported as a failing case), and merged tokens carry that POS.
+fn user_pos_variants(sink: &mut Sink, work: &std::path::Path, dic: &[u8]) -> Vec<Variant> {
+    let res = resource_dir(work, "res_c14_upos", "resources/char.def");
+    // unk.def for the MeCab provider: ids inside the 10x10 matrix, katakana / default words get the user-defined POS
+    let u = OOV_POS[3].join(",");
+    std::fs::write(
+        res.join("unk.def"),
+        format!("DEFAULT,8,8,6000,{u}\nKATAKANA,8,8,5000,{u}\nKATAKANA,7,7,5500,ÂêçË©û,ÊôÆÈÄöÂêçË©û,‰∏ÄËà¨,*,*,*\nALPHA,8,8,5000,ÂêçË©û,ÊôÆÈÄöÂêçË©û,‰∏ÄËà¨,*,*,*\nNUMERIC,9,9,5000,ÂêçË©û,Êï∞Ë©û,*,*,*,*\n", u = u),
+    )
+    .unwrap();
+    let simple = |pos: usize, allow: bool| {
+        let mut v = json!({"class": "com.worksap.nlp.sudachi.SimpleOovPlugin", "oovPOS": OOV_POS[pos], "leftId": 8, "rightId": 8, "cost": 6000});
+        if allow {
+            v["userPOS"] = json!("allow");
+        }
+        v
+    };
+    let regex = json!({"class": "com.worksap.nlp.sudachi.RegexOovProvider", "oovPOS": OOV_POS[4], "leftId": 7, "rightId": 7, "cost": 3000,
+                       "regex": "[„Ç°-„É∂„Éº]+", "maxLength": 20, "boundaries": "relaxed", "userPOS": "allow"});
+    let mecab = json!({"class": "com.worksap.nlp.sudachi.MeCabOovPlugin", "charDef": "char.def", "unkDef": "unk.def", "userPOS": "allow"});
+    let stacks: Vec<(&str, Value, Vec<Plug>)> = vec![
+        ("simple/kat3u", json!([simple(3, true)]), vec![Plug::Katakana { min_length: 3, pos: 3 }]),
+        ("simple/num+kat2u", json!([simple(3, true)]), vec![Plug::Numeric { normalize: true }, Plug::Katakana { min_length: 2, pos: 3 }]),
+        ("regex+simple/kat3f", json!([regex, simple(0, false)]), vec![Plug::Katakana { min_length: 3, pos: 4 }]),
+        ("regex+simple/kat1f+num", json!([regex, simple(3, true)]), vec![Plug::Katakana { min_length: 1, pos: 4 }, Plug::Numeric { normalize: false }]),
+        ("mecab+simple/kat4u", json!([mecab, simple(0, false)]), vec![Plug::Katakana { min_length: 4, pos: 3 }]),
+        ("mecab+simple/num+kat3u", json!([mecab, simple(3, true)]), vec![Plug::Numeric { normalize: true }, Plug::Katakana { min_length: 3, pos: 3 }]),
+    ];
+    let mut vs = vec![];
+    for (name, oov, plugs) in stacks {
+        let name = format!("upos-{}", name);
+        let pr = Value::Array(plugs.iter().map(plug_json).collect());
+        let d = json!({"kind": "rewrite_load", "variant": name, "oovProviderPlugin": oov, "pathRewritePlugin": pr, "text": ""});
+        sink.tag("user_pos_configuration");
+        let base = match try_load(dic, &res, &oov, json!([])) {
+            Ok(b) => b,
+            Err(e) => {
+                // not loadable even without the path-rewrite plugins: outside the statement (and unexpected: reported)
+                let id = sink.case_rust_only(d, true);
+                sink.fail(id, &format!("configuration {} does not load even without path-rewrite plugins: {}", name, e), "");
+                continue;
+            }
+        };
+        match try_load(dic, &res, &oov, pr.clone()) {
+            Ok(with) => {
+                let num_pos = pos_id(&base, &NUM_POS);
+                let oov_pos: Vec<u16> = OOV_POS.iter().map(|p| base.grammar().get_part_of_speech_id(p).unwrap_or(u16::MAX)).collect();
+                let id = sink.case_rust_only(d, true);
+                // the ids the plugins resolved are those of the analysis without them
+                for p in &plugs {
+                    if let Plug::Katakana { pos, .. } = p {
+                        if oov_pos[*pos] == u16::MAX || with.grammar().get_part_of_speech_id(&OOV_POS[*pos]) != Some(oov_pos[*pos]) {
+                            sink.fail(id, &format!("configuration {}: the user-defined part of speech {:?} has no / another id with the path-rewrite plugins", name, OOV_POS[*pos]), "");
+                        }
+                    }
+                }
+                vs.push(Variant { name, plugs, base, with, num_pos, oov_pos, input_plugin: false });
+            }
+            Err(e) => {
+                let id = sink.case_rust_only(d, true);
+                sink.fail(
+                    id,
+                    &format!("configuration {} (OOV providers {}, path-rewrite plugins {}) loads without the path-rewrite plugins but not with them: {} -- every part of speech they name exists once the OOV providers are set up", name, oov, pr, e),
+                    "",
+                );
             }
         }
     }
@@ -654,11 +751,19 @@ const DIRECTED_HEADWORD: [&str; 12] = ["Êù±‰∫¨„Å´18", "8", "Ôºò", "ÔºòÔºó", "88Â
 pub fn run(args: &Args) {
     let mut sink = Sink::new("C14", &args.out, &["Model.Rewrite"], args.seed, &args.tier);
     sink.shard_size = 60;
-    sink.rule("the same text analysed with one dictionary (tests/resources/lex.csv + numeral units, separators, katakana words; resources/char.def or tests/resources/char.def) without path-rewrite plugins and with a plugin chain; a second lexicon makes 4 / Âõõ / 9 / ÂÑÑ common nouns, leaves ',' and '.' out (OOV separators inside numeral runs) and gives katakana words other parts of speech; every morpheme's reported surface()/begin()/end() must be the covered text, a merged one the union / concatenation of its parts, with the part of speech and OOV flag of the plugin that can have made the merge (JoinNumeric enableNormalize true/false, JoinKatakanaOov minLength 0/1/2/3/5/9, three OOV parts of speech, both orders, each alone); texts are concatenations of katakana dictionary words / katakana OOV pieces (incl. NOOOVBOW „Ç°) / digits, kanji digits, units, separators, well-formed and malformed numerals / other words, the empty text, every piece alone and between blanks (paths of 0 / 1 / 2 tokens), pairs of pieces; directed sequences first (separators at text edges, numerals next to katakana runs); Coq model of both loops run on the plugin-free path must equal the result with plugins and grouping_ok must hold on it; a Rust oracle re-checks boundary subset, union range, concatenated surface, prescribed part of speech, unchanged rest; non-trivial = at least one merge; extra stream with the NFKC input-text plugin (oracle only); numeral-class words whose headword does not have the byte length of their key (full-width / kanji / ASCII headword for a key written otherwise) in both lexicons, directed and as pieces; every case additionally with the word-info fields restricted (StatefulTokenizer::set_subset: POS_ID; POS_ID|NORMALIZED_FORM; +READING_FORM; POS_ID|SPLIT_A|SPLIT_B - none loads the surface): with plugins the analysis succeeds whenever it succeeds without, covers the text, boundaries are a subset");
-    let vs = variants(&args.work);
+    sink.rule("the same text analysed with one dictionary (tests/resources/lex.csv + numeral units, separators, katakana words; resources/char.def or tests/resources/char.def) without path-rewrite plugins and with a plugin chain; a second lexicon makes 4 / Âõõ / 9 / ÂÑÑ common nouns, leaves ',' and '.' out (OOV separators inside numeral runs) and gives katakana words other parts of speech; every morpheme's reported surface()/begin()/end() must be the covered text, a merged one the union / concatenation of its parts, with the part of speech and OOV flag of the plugin that can have made the merge (JoinNumeric enableNormalize true/false, JoinKatakanaOov minLength 0/1/2/3/4/5/9, three OOV parts of speech of the lexicon incl. ones that differ from the part of speech of the katakana dictionary words (runs joined only because of minLength), both orders, each alone; `upos-` configurations whose oovPOS is a USER-DEFINED part of speech that only an OOV provider with userPOS=allow introduces (Simple / Regex / MeCab through unk.def): they must load with the path-rewrite plugins whenever they load without, and merged tokens carry that part of speech); texts are concatenations of katakana dictionary words / katakana OOV pieces (incl. NOOOVBOW „Ç°) / digits, kanji digits, units, separators, well-formed and malformed numerals / other words, the empty text, every piece alone and between blanks (paths of 0 / 1 / 2 tokens), pairs of pieces; directed sequences first (separators at text edges, numerals next to katakana runs); Coq model of both loops run on the plugin-free path must equal the result with plugins and grouping_ok must hold on it; a Rust oracle re-checks boundary subset, union range, concatenated surface, prescribed part of speech, unchanged rest; non-trivial = at least one merge; extra stream with the NFKC input-text plugin (oracle only); numeral-class words whose headword does not have the byte length of their key (full-width / kanji / ASCII headword for a key written otherwise) in both lexicons, directed and as pieces; every case additionally with the word-info fields restricted (StatefulTokenizer::set_subset: POS_ID; POS_ID|NORMALIZED_FORM; +READING_FORM; POS_ID|SPLIT_A|SPLIT_B - none loads the surface): with plugins the analysis succeeds whenever it succeeds without, covers the text, boundaries are a subset");
+    let mut vs = variants(&args.work);
+    // user-defined parts of speech introduced by OOV providers (both lexicons' katakana words are dictionary words there too)
+    let upos_dic = compile_system(&format!("{}{}{}", EXTRA_ROWS, attr_rows(46, 47, 55, 56), HEADWORD_ROWS));
+    vs.extend(user_pos_variants(&mut sink, &args.work, &upos_dic));
     if let Some(p) = &args.replay {
         let r: Value = serde_json::from_str(&std::fs::read_to_string(p).unwrap()).unwrap();
         let c = &r["case"];
+        if c["kind"] == "rewrite_load" {
+            // the configurations were loaded (and failures reported) above
+            sink.finish();
+            return;
+        }
         if c["kind"] == "termination" {
             termination_probe(&mut sink, &args.work, c["text"].as_str(), true);
             sink.finish();
@@ -684,7 +789,9 @@ pub fn run(args: &Args) {
     let mut rng = Rng::new(args.seed);
     for t in DIRECTED.iter() {
         for v in vs.iter().filter(|v| !v.input_plugin) {
-            if v.name.ends_with("num+kat3") || v.name.ends_with("numraw+kat1") || v.name.ends_with("kat2") || v.name.ends_with("numraw") {
+            if v.name.ends_with("num+kat3") || v.name.ends_with("numraw+kat1") || v.name.ends_with("kat2") || v.name.ends_with("numraw")
+                || v.name.ends_with("kat3p1") || v.name.ends_with("num+kat4p2") || v.name.starts_with("upos-")
+            {
                 run_case(&mut sink, v, t, "text:directed", false);
             }
         }
